@@ -370,6 +370,28 @@ fn main() {
         t
     });
 
+    // ---- S5: operands m*2^a*5^b against the shortcut operands (one in several spellings, zero, two, ten) ----
+    let ab: Vec<u32> = tier.pick(vec![0, 1, 2, 26, 27, 28, 53, 54, 55, 56, 63, 64, 65, 81, 82, 108, 109, 120], (0..=124).collect());
+    let tf = two_five_ints(&ab, &ab, &[1, -3]);
+    let shortcut_ops: Vec<Dec> = vec![Dec::new(1, 0), Dec::new(100, 2), Dec::new(-1, 0), Dec::new(0, 2), Dec::new(2, 0), Dec::new(10, 0), Dec::new(5, 1)];
+    let sxs: Vec<BigDecimal> = shortcut_ops.iter().map(bd).collect();
+    run.bound("S5_two_five_exponents", json!(ab));
+    run.par("S5 m*2^a*5^b x shortcut operands", tf.len(), |i| {
+        let mut t = Tally::default();
+        for s in [0i128, 60] {
+            let x = Dec { n: tf[i].2.clone(), s };
+            let xb = bd(&x);
+            t.states += 1;
+            for (q, qb) in shortcut_ops.iter().zip(sxs.iter()) {
+                t.nontrivial += 2 * ds.len() as u64;
+                check_pair(&run, &ds, &is, &xb, qb, &x, q, &mut t);
+                check_pair(&run, &ds, &is, qb, &xb, q, &x, &mut t);
+            }
+            check_unary(&run, &x, &mut t);
+        }
+        t
+    });
+
     // ---- S4: derived unary operations and sums -------------------------------------------------
     let lens: &[usize] = if tier.is_thorough() { &LONG_LENS_THOROUGH } else { &LONG_LENS_QUICK };
     let mut un: Vec<Dec> = a_set.clone();
